@@ -12,7 +12,7 @@ from .interp import merge_flags
 
 class Profile:
     def __init__(self, name, weights=None, exclude=(), max_steps=6, max_rows=12, n_tables=(1, 2), only=None,
-                 index_kinds=("range", "int", "str", "float", "dt"), need_pandas_ok=False, final=None):
+                 index_kinds=("range", "int", "str", "float", "dt"), need_pandas_ok=False, final=None, siblings=0):
         self.name = name
         self.weights = weights or {}
         self.exclude = set(exclude)
@@ -23,6 +23,7 @@ class Profile:
         self.index_kinds = index_kinds
         self.need_pandas_ok = need_pandas_ok
         self.final = final
+        self.siblings = siblings  # percent of steps that are sibling variants
 
     def op_weight(self, name):
         if name in self.exclude:
@@ -61,6 +62,29 @@ def programs(draw, profile):
     attempts = 0
     while len(steps) < nsteps and attempts < nsteps * 4:
         attempts += 1
+        # sibling variant: repeat an earlier step on the same inputs with re-drawn arguments
+        # (two expressions of one class over one input that differ in a parameter)
+        if steps and profile.siblings and draw(st.integers(0, 99)) < profile.siblings:
+            base = steps[draw(st.integers(0, len(steps) - 1))]
+            op = O.OPS[base["op"]]
+            ins = [(pvals[i], flags[i]) for i in base["in"]]
+            args = op.gen(draw, ins)
+            if args is None or args == base["args"]:
+                continue
+            sid = f"v{len(steps) + 1}"
+            try:
+                out = op.apply("pandas", [pvals[i] for i in base["in"]], args)
+                fl = op.flags(ins, args, out)
+            except Exception:
+                continue
+            if O.kind_of(out) in ("frame", "series") and _has_dup_labels(out):
+                continue
+            pvals[sid] = out
+            flags[sid] = merge_flags(fl, [f for _, f in ins], sid)
+            steps.append({"id": sid, "op": base["op"], "in": list(base["in"]), "args": args})
+            if not flags[sid].defined:
+                break
+            continue
         r = draw(st.integers(0, tot - 1))
         opname = next(n for n, c in zip(names, cum) if r < c)
         op = O.OPS[opname]
